@@ -1,5 +1,18 @@
 /- C09 extension (Mod family): theorems model = specification. -/
+import RelicVerif.Lemmas.NtMod
 
 namespace Relic.Props.C09
+open Relic.Model.NtMod
+
+/-- bn_srt (binary search as coded, Model.NtMod.bnSrt): for every a ≥ 0 the loop terminates within the fuel the model supplies
+    (the result is `some`, never the fuel-exhausted `none`) and returns the floor square root. -/
+theorem srt_exact (a : Nat) : bnSrt (a : Int) = some (Nat.sqrt a) := Relic.Lemmas.NtMod.bnSrt_eq_sqrt a
+
+/-- the same in the defining form r² ≤ a < (r+1)² -/
+theorem srt_bounds (a : Nat) : ∃ r, bnSrt (a : Int) = some r ∧ r * r ≤ a ∧ a < (r + 1) * (r + 1) :=
+  Relic.Lemmas.NtMod.bnSrt_spec a
+
+/-- negative argument: ERR_NO_VALID -/
+theorem srt_neg_err (a : Int) (h : a < 0) : bnSrt a = none := Relic.Lemmas.NtMod.bnSrt_neg a h
 
 end Relic.Props.C09
